@@ -59,14 +59,12 @@ func (b *ReaderX) Read(p []byte) error {
 	if l == 0 {
 		return nil
 	}
-	var size, err = b.reader.Read(p)
-	if err != nil {
-		return err
-	}
-	if size != l {
+	// an io.Reader may deliver fewer bytes than asked for, nothing at all, or the last bytes together with io.EOF
+	var _, err = io.ReadFull(b.reader, p)
+	if err == io.ErrUnexpectedEOF {
 		return ErrByteBufferEmpty
 	}
-	return nil
+	return err
 }
 
 // ReadN read n length buffer
